@@ -52,9 +52,23 @@ CHECKS = {
    technique="TLA+ model of tasks interleaving at the library's suspension points (spec/SendConc.tla) checked exhaustively by TLC (deadlock freedom, S1-S5); all schedules of the REAL code over its gated suspension points enumerated by stateless DFS with a controlled scheduler; TLC (spec/SendConcEval.tla) evaluates S1-S5 on every execution and the real wires are compared with the model's reachable wires",
    text="2-3 application senders, the heartbeat task's TestRequest and the reader servicing a ResendRequest / TestRequest / gap / application message: every interleaving over drain (FIFO wake-up), should_replay, on_state_change, on_message, on_logon; for each execution the wire order, per-task results, journal rows (exact bytes hash) and the stored counter are judged by TLC.",
    design_ref="5/C14", note="Preemption only at awaits; the largest task set is capped (quick: 6000 executions) and reported as not exhaustive in the evidence. " + COMMON_NOTE),
+ "C02": dict(engine="Wire",
+   technique="independent byte-level FIX frame grammar in TLA+ (spec/Wire.tla: WellFormedFrame over Seq(0..255)) evaluated by TLC (spec/WireEval.tla) on every byte string handed to the transport in send cases with adversarial values and on every frame written during seeded session histories of the Session1 / Net drivers",
+   text="The frames are produced by the real encoder and connection; TLC judges BeginString/BodyLength/MsgType order, three-digit CheckSum last, BodyLength = byte count, CheckSum = byte sum mod 256, tag=value shape of every field. A message that cannot be represented (characters above U+00FF) must raise and write nothing.",
+   design_ref="5/C02", note="No state space is explored for this property (pure input/output relation); TLC is the oracle evaluator. Values with SOH or empty values are outside the property. " + COMMON_NOTE),
+ "C03": dict(engine="Wire",
+   technique="TLA+ model of the reader loop with a reference decoder contract over concrete bytes (spec/Reassembly.tla) checked by TLC for every partition into <= 3 reads; the real socket_read_task fed all 1-cut and 2-cut partitions, random multi-cut partitions and 1-byte reads of real frame streams with marker-free garbage; per-read observations judged by TLC (spec/WireEval.tla kind 'reads')",
+   text="After every read the number of journaled inbound frames must equal the number of frames that have completely arrived, the delivered application numbers must be all of them in order and the buffer must hold nothing but a possible partial frame-start marker - for every chunking, hence independent of it.",
+   design_ref="5/C03", note="Frames valid and in sequence; garbage without a complete marker. " + COMMON_NOTE),
+ "C10": dict(engine="Wire",
+   technique="independent byte-level grammar in TLA+ (spec/Wire.tla: ConsistencyDefects / FrameConsistent) evaluated by TLC on every outcome of repeated Codec.decode(silent=True) over arbitrary bytes, grammar-aware malformed frames and every single-byte substitution / deletion / insertion of a corpus of valid frames followed by valid traffic; the live reader is fed the same inputs",
+   text="Totality (never raises), consumed length within the buffer, termination of repeated decoding, every returned message is a contiguous slice at the first marker with consistent BodyLength and three-digit CheckSum, and the live reader's buffer is drained behind a malformed frame.",
+   design_ref="5/C10", note="Known finding KF-C10-lax-bodylength (test-pinned). Quick tier samples 12 replacement bytes per position, thorough all 255 for the main frame. " + COMMON_NOTE),
 }
 
 ENGINES = [
+ dict(name="Wire", path="spec/Wire.tla spec/WireEval.tla spec/Reassembly.tla harness/wirecheck.py harness/props/c02.py harness/props/c03.py harness/props/c10.py",
+      serves_properties=["C02", "C03", "C10"], kind_free_text="independent byte-level FIX grammar in TLA+ evaluated by TLC on real encoder/decoder/reader observations; TLA+ reader-loop model"),
  dict(name="SendConc", path="spec/SendConc.tla spec/SendConcProps.tla spec/SendConcEval.tla harness/conc.py harness/props/c14.py",
       serves_properties=["C14"], kind_free_text="TLA+ model of task interleavings + TLC + controlled-scheduler exploration of the real code"),
  dict(name="Heartbeat", path="spec/Heartbeat.tla spec/HeartbeatProps.tla spec/HeartbeatEval.tla harness/props/c12.py",
